@@ -590,8 +590,9 @@ func (b *BFT) Pacemaker() {
 			continue
 		}
 		totalVotedPower += validator.VotingPower
-		// if totalVotePower >= +33%, it's safe to advance to that round
-		if totalVotedPower >= lib.Uint64ReducePercentage(b.ValidatorSet.MinimumMaj23, 50) {
+		// if totalVotePower > 1/3, at least one correct replica is at that round: it's safe to advance to it
+		// (half of the +2/3 threshold is not enough: with 3f+1 equal stakes it equals f, the faulty power alone)
+		if totalVotedPower >= b.ValidatorSet.TotalPower/3+1 {
 			pacemakerRound = vote.Qc.Header.Round // set the highest round where +1/3rds have been
 			break
 		}
